@@ -9,34 +9,44 @@ case whose error predicate is `ErrorMatch` with a pattern that compiles, whose c
 error, and whose error text does not match, is *not* reported (known finding K1, pinned by the
 repository's own `Test_ErrorMatch_Fail`). `errorMatch_silent` proves that negation in the model;
 `reports_iff_partial` is the property for every case outside that shape.
+
+The three Unmarshal helpers take a `TypeHelper[T]`; every statement below quantifies over it
+(`hb : Option HelperBeh`, `none` = nil helper, `some b` = a scripted custom helper whose `New`,
+`AssertEmpty`, `AssertEqual` differ from the defaults and whose `AssertEqual` is asymmetric). With a
+custom helper "satisfied" means: the helper's own verdict about (expected := the case's value,
+actual := the receiver its `New` made and the unmarshaler filled) resp. about the receiver's emptiness.
 -/
 namespace U.Props.C20
 open U U.TestKit
 
 /-- the full statement (false, see `errorMatch_silent`) -/
 def reports_iff_statement : Prop :=
-  ∀ (h : Helper) (tk : TypeKind) (cases : List Case),
-    ((run h tk cases).1 = true ∨ (run h tk cases).2.any id = true) ↔
+  ∀ (h : Helper) (tk : TypeKind) (hb : Option HelperBeh) (cases : List Case),
+    ((run h tk hb cases).1 = true ∨ (run h tk hb cases).2.any id = true) ↔
       ((implements h tk = false ∧ cases ≠ []) ∨
-       (implements h tk = true ∧ ∃ c ∈ cases, applicable h c = true ∧ satisfied h c = false))
+       (implements h tk = true ∧ ∃ c ∈ cases, applicable h c = true ∧ satisfied h hb c = false))
 
 /-- **K1, the negation witness**: a one-case list whose marshaler returns an error that
-`ErrorMatch("^nomatch$")` does not match reports nothing although the case is not satisfied. -/
+`ErrorMatch("^nomatch$")` does not match reports nothing although the case is not satisfied — with the
+nil helper and with a custom one alike. -/
 theorem errorMatch_silent :
     let c : Case := ⟨0, .nil, .nil, .re true false, .err [98, 111, 111, 109] none, .err [98, 111, 111, 109] none, none, 0⟩
-    run .mt .tv [c] = (false, [false]) ∧ run .ut .tv [c] = (false, [false]) ∧
-    applicable .mt c = true ∧ satisfied .mt c = false ∧ satisfied .ut c = false := by decide
+    let b : HelperBeh := ⟨5, true, 5, 3⟩
+    run .mt .tv none [c] = (false, [false]) ∧ run .ut .tv none [c] = (false, [false]) ∧
+    run .ut .tv (some b) [c] = (false, [false]) ∧
+    applicable .mt c = true ∧ satisfied .mt none c = false ∧ satisfied .ut none c = false ∧
+    satisfied .ut (some b) c = false := by decide
 
 theorem full_statement_is_false : ¬ reports_iff_statement := by
   intro h
-  have := (h .mt .tv [⟨0, .nil, .nil, .re true false, .err [98, 111, 111, 109] none, .err [98, 111, 111, 109] none, none, 0⟩]).mpr
+  have := (h .mt .tv none [⟨0, .nil, .nil, .re true false, .err [98, 111, 111, 109] none, .err [98, 111, 111, 109] none, none, 0⟩]).mpr
     (Or.inr ⟨by decide, _, List.mem_singleton.mpr rfl, by decide, by decide⟩)
   revert this
   decide
 
 /-- **per case**: an applicable case outside the K1 shape is reported exactly when it is not satisfied -/
-theorem case_reported_iff (h : Helper) (c : Case) (hk : k1 h c = false) :
-    (if h.isMarshal then marshalCase h.isBinary c else unmarshalCase c) = !satisfied h c := by
+theorem case_reported_iff (h : Helper) (hb : Option HelperBeh) (c : Case) (hk : k1 h c = false) :
+    (if h.isMarshal then marshalCase h.isBinary c else unmarshalCase hb c) = !satisfied h hb c := by
   unfold satisfied
   unfold k1 at hk
   cases hm : h.isMarshal
@@ -52,9 +62,9 @@ theorem case_reported_iff (h : Helper) (c : Case) (hk : k1 h c = false) :
     · left; simpa [hh] using hk
 
 /-- **cases for the other direction are ignored** -/
-theorem other_direction_ignored (h : Helper) (tk : TypeKind) (cases : List Case) (i : Nat) (c : Case)
-    (hc : cases[i]? = some c) (hna : applicable h c = false) :
-    (run h tk cases).2[i]? = some false := by
+theorem other_direction_ignored (h : Helper) (tk : TypeKind) (hb : Option HelperBeh) (cases : List Case)
+    (i : Nat) (c : Case) (hc : cases[i]? = some c) (hna : applicable h c = false) :
+    (run h tk hb cases).2[i]? = some false := by
   unfold run
   cases cases with
   | nil => simp at hc
@@ -68,12 +78,12 @@ theorem other_direction_ignored (h : Helper) (tk : TypeKind) (cases : List Case)
 
 /-- **list level**: something is reported (an `Errorf` for some case, or `FailNow`) iff the type lacks
 the interface and there is at least one case, or some applicable case is not satisfied — for every
-case list without a K1-shaped case. -/
-theorem reports_iff_partial (h : Helper) (tk : TypeKind) (cases : List Case)
+case list without a K1-shaped case, and for every `TypeHelper` (nil or custom). -/
+theorem reports_iff_partial (h : Helper) (tk : TypeKind) (hb : Option HelperBeh) (cases : List Case)
     (hk : ∀ c ∈ cases, k1 h c = false) :
-    ((run h tk cases).1 = true ∨ (run h tk cases).2.any id = true) ↔
+    ((run h tk hb cases).1 = true ∨ (run h tk hb cases).2.any id = true) ↔
       ((implements h tk = false ∧ cases ≠ []) ∨
-       (implements h tk = true ∧ ∃ c ∈ cases, applicable h c = true ∧ satisfied h c = false)) := by
+       (implements h tk = true ∧ ∃ c ∈ cases, applicable h c = true ∧ satisfied h hb c = false)) := by
   unfold run
   cases cases with
   | nil => simp
@@ -87,7 +97,7 @@ theorem reports_iff_partial (h : Helper) (tk : TypeKind) (cases : List Case)
       constructor
       · rintro ⟨c, hc, hr⟩
         refine ⟨c, hc, ?_⟩
-        have key := case_reported_iff h c (hk c hc)
+        have key := case_reported_iff h hb c (hk c hc)
         simp only [Function.comp, id] at hr
         unfold applicable
         cases hm : h.isMarshal <;> simp only [hm, Bool.false_eq_true, if_false, if_true] at hr key ⊢
@@ -99,7 +109,7 @@ theorem reports_iff_partial (h : Helper) (tk : TypeKind) (cases : List Case)
           · simp at hr
       · rintro ⟨c, hc, ha, hs⟩
         refine ⟨c, hc, ?_⟩
-        have key := case_reported_iff h c (hk c hc)
+        have key := case_reported_iff h hb c (hk c hc)
         simp only [Function.comp, id]
         unfold applicable at ha
         cases hm : h.isMarshal <;> simp only [hm, Bool.false_eq_true, if_false, if_true] at ha key ⊢
@@ -108,27 +118,86 @@ theorem reports_iff_partial (h : Helper) (tk : TypeKind) (cases : List Case)
 
 /-- **no panic escapes**: a panic in a hook or in the Marshal*/Unmarshal* method is an input of the
 model that the helper turns into an error value; the helper's result is always a verdict per case -/
-theorem verdict_per_case (h : Helper) (tk : TypeKind) (cases : List Case) :
-    (run h tk cases).2.length = cases.length := by
+theorem verdict_per_case (h : Helper) (tk : TypeKind) (hb : Option HelperBeh) (cases : List Case) :
+    (run h tk hb cases).2.length = cases.length := by
   unfold run
   cases cases with
   | nil => rfl
   | cons c cs => simp only; split <;> simp
 
 /-- a type lacking the interface is reported through `FailNow` as soon as there is one case -/
-theorem fail_type (h : Helper) (tk : TypeKind) (cases : List Case) (hi : implements h tk = false) :
-    (run h tk cases).1 = !cases.isEmpty := by
+theorem fail_type (h : Helper) (tk : TypeKind) (hb : Option HelperBeh) (cases : List Case)
+    (hi : implements h tk = false) :
+    (run h tk hb cases).1 = !cases.isEmpty := by
   unfold run
   cases cases with
   | nil => rfl
   | cons c cs => simp [hi]
 
+/-- **the custom helper is asked the right questions**: for an Unmarshal helper, a case with passing
+hooks and a custom helper `b`: without an error predicate and without an error the verdict is exactly
+`b.AssertEqual(expected := c.value, actual := receiver)`, where the receiver is what the unmarshaler
+stored, else `b.New(c.value)` untouched; with predicate `AnyError` and an error it is exactly
+`b.AssertEmpty(receiver)`. (Argument order, the use of `New` and its argument are all pinned here.) -/
+theorem custom_helper_asked (b : HelperBeh) (c : Case) (hh : hooksPass c = true) :
+    (c.pred = .none → unmarshalErr c.ubeh = .none →
+      unmarshalCase (some b) c = b.assertEqual c.value ((unmarshalStored c.ubeh).getD (b.new c.value))) ∧
+    (c.pred = .any → unmarshalErr c.ubeh ≠ .none →
+      unmarshalCase (some b) c = b.assertEmpty ((unmarshalStored c.ubeh).getD (b.new c.value))) := by
+  unfold hooksPass at hh
+  simp only [Bool.and_eq_true, Bool.not_eq_true'] at hh
+  unfold unmarshalCase unmarshalResult helperNew helperAssertEqual helperAssertEmpty
+  simp only [hh.1, hh.2, Bool.false_eq_true, if_false]
+  constructor
+  · intro hp he; simp [hp, he, ErrV.isNil]
+  · intro hp he
+    simp only [hp]
+    cases hx : unmarshalErr c.ubeh <;> simp_all [applyPred, ErrV.isNil]
+
+/-- the Marshal helpers take no `TypeHelper` -/
+theorem marshal_ignores_helper (h : Helper) (tk : TypeKind) (hb : Option HelperBeh) (cases : List Case)
+    (hm : h.isMarshal = true) : run h tk hb cases = run h tk none cases := by
+  unfold run
+  simp [hm]
+
 /-! non-vacuity -/
-example : run .mt .tv [⟨0, .ok, .nil, .none, .data (some [97]), .ok none, some [97], 0⟩] = (false, [false]) := by decide
-example : run .mt .tv [⟨0, .ok, .nil, .none, .data (some [98]), .ok none, some [97], 0⟩] = (false, [true]) := by decide
-example : run .mb .tv [⟨0, .nil, .nil, .none, .data none, .ok none, some [], 0⟩] = (false, [true]) := by decide   -- nil vs empty
-example : run .mt .tp [⟨0, .nil, .nil, .none, .data none, .ok none, none, 0⟩] = (true, [false]) := by decide      -- FailNow
-example : run .ut .tv [⟨0, .nil, .panic, .none, .data none, .ok (some 5), none, 5⟩] = (false, [true]) := by decide -- hook panic
+example : run .mt .tv none [⟨0, .ok, .nil, .none, .data (some [97]), .ok none, some [97], 0⟩] = (false, [false]) := by decide
+example : run .mt .tv none [⟨0, .ok, .nil, .none, .data (some [98]), .ok none, some [97], 0⟩] = (false, [true]) := by decide
+example : run .mb .tv none [⟨0, .nil, .nil, .none, .data none, .ok none, some [], 0⟩] = (false, [true]) := by decide   -- nil vs empty
+example : run .mt .tp none [⟨0, .nil, .nil, .none, .data none, .ok none, none, 0⟩] = (true, [false]) := by decide      -- FailNow
+example : run .ut .tv none [⟨0, .nil, .panic, .none, .data none, .ok (some 5), none, 5⟩] = (false, [true]) := by decide -- hook panic
+
+/-! non-vacuity with a custom `TypeHelper`: its verdict differs from the nil helper's in both directions -/
+section
+private def cU (p : Pred) (u : UBeh) (v : Int) : Case := ⟨0, .nil, .nil, p, .data none, u, none, v⟩
+-- helper accepts what `assert.Equal` rejects: expected 1, stored 3, `3 mod 2 = 1`
+example : run .ut .tv none [cU .none (.ok (some 3)) 1] = (false, [true]) := by decide
+example : run .ut .tv (some ⟨0, false, 0, 2⟩) [cU .none (.ok (some 3)) 1] = (false, [false]) := by decide
+-- helper rejects what `assert.Equal` accepts: expected 2, stored 2, `2 mod 2 = 0 ≠ 2`
+example : run .uj .ptp none [cU .none (.ok (some 2)) 2] = (false, [false]) := by decide
+example : run .uj .ptp (some ⟨0, false, 0, 2⟩) [cU .none (.ok (some 2)) 2] = (false, [true]) := by decide
+-- argument order matters: (expected 1, actual 3) is accepted, (expected 3, actual 1) is not
+example : run .ub .tv (some ⟨0, false, 0, 2⟩) [cU .none (.ok (some 1)) 3] = (false, [true]) := by decide
+-- `New` is observable: an unmarshaler that stores nothing leaves what `New` made (5, or 5 + the case's value)
+example : run .ut .tv none [cU .none (.ok none) 0] = (false, [false]) := by decide
+example : run .ut .tv (some ⟨5, false, 0, 0⟩) [cU .none (.ok none) 0] = (false, [true]) := by decide
+example : run .ut .tv none [cU .none (.ok none) 5] = (false, [true]) := by decide
+example : run .ut .tv (some ⟨5, false, 0, 0⟩) [cU .none (.ok none) 5] = (false, [false]) := by decide
+example : run .ut .tv (some ⟨1, true, 0, 0⟩) [cU .none (.ok none) 2] = (false, [true]) := by decide    -- New(2) = 3 ≠ 2
+example : run .ut .tv (some ⟨0, true, 0, 0⟩) [cU .none (.ok none) 2] = (false, [false]) := by decide   -- New(2) = 2
+-- expected error: the helper's idea of "empty" (7) replaces the zero value
+example : run .ut .tv none [cU .any (.err [101] (some 7)) 0] = (false, [true]) := by decide
+example : run .ut .tv (some ⟨0, false, 7, 0⟩) [cU .any (.err [101] (some 7)) 0] = (false, [false]) := by decide
+example : run .ut .tv none [cU .any (.err [101] none) 0] = (false, [false]) := by decide
+example : run .ut .tv (some ⟨0, false, 7, 0⟩) [cU .any (.err [101] none) 0] = (false, [true]) := by decide
+example : run .ut .tv (some ⟨7, false, 7, 0⟩) [cU .any (.err [101] none) 0] = (false, [false]) := by decide
+-- the specification agrees on all of these
+example : satisfied .ut (some ⟨0, false, 0, 2⟩) (cU .none (.ok (some 3)) 1) = true ∧ satisfied .ut none (cU .none (.ok (some 3)) 1) = false ∧
+    satisfied .ut (some ⟨0, false, 0, 2⟩) (cU .none (.ok (some 2)) 2) = false ∧ satisfied .ut none (cU .none (.ok (some 2)) 2) = true ∧
+    satisfied .ut (some ⟨0, false, 7, 0⟩) (cU .any (.err [101] (some 7)) 0) = true ∧ satisfied .ut none (cU .any (.err [101] (some 7)) 0) = false := by decide
+-- a type without the interface is reported whatever the helper
+example : run .ut .tn (some ⟨5, true, 7, 2⟩) [cU .none (.ok none) 0] = (true, [false]) := by decide
+end
 
 /-- **tie to the source**: `isForMarshal` / `isForUnmarshal` as translated from `test/constraint.go` on this run -/
 theorem constraint_code_tie (c : Nat) :
